@@ -120,7 +120,7 @@ K("fit_in_descendant_contract", ["C15"], OPF, "fit_in_descendant(n) <=> n <= spl
   "all (dim, split_after, n)", site="Writer::fit_in_descendant")
 K("target_n_trees_contract", ["C15"], OPF,
   "target_n_trees returns an explicit n_trees as is; the automatic choice is >= 1 whenever there are more items than one bucket holds",
-  "dim 1..=4096, item sets over 64 ids, 0..=3 existing roots", site="target_n_trees",
+  "dim 1..=4096, item sets over 64 ids, 0..=16 existing roots", site="target_n_trees",
   clause="automatic tree count is zero")
 K("single_leaf_shortcut_contract", ["C15", "C01", "C06", "C07"], OPF,
   "clear_db_and_create_a_single_leaf leaves exactly Tree(0)=bucket(items) (or no tree key), metadata (name, dim, items, roots=[0]|[]), a version record; every other key untouched",
